@@ -318,7 +318,7 @@ PROPS["C09"] = {
           bounds="unwind 5; capacity 2, 1 outer operation (acquire, or release of an index held before the race) preempted before any of its atomic operations, up to 2 inner operations (one may run before)"),
         H("c09::sched::c09_s_uis_race_cap2_lock_deep", crate="hs", covers=2, timeout=7200, mem_gb=30, tiers=("thorough",),
           what="lock-if-last race, 1 outer / 3 inner operations, preemption also before cell accesses", bounds="unwind 7"),
-        H("c09::sched::c09_s_robust_recover_vs_recover", crate="hs", covers=2, timeout=3000, mem_gb=12, tiers=("quick", "thorough"),
+        H("c09::sched::c09_s_robust_recover_vs_recover", crate="hs", covers=2, timeout=4500, mem_gb=14, tiers=("thorough",),
           unwindset=_ROBUST_RACE,
           what="robust set: recovery of a dead owner preempted at every atomic operation while a second recoverer and an "
                "acquiring live owner run up to 2 complete operations in the gaps: exactly the dead owner's indices, each "
@@ -794,9 +794,11 @@ PROPS["C09"].update({
     "level_text": _BMC + ". UniqueIndexSet (lock-free free list with ABA tag) and RobustUniqueIndexSet: symbolic "
                   "acquire / release / lock-if-last / recover histories against a set / owner model (exclusive, in range, "
                   "leak free, exact failure conditions), and two threads racing on the real free list under symbolic "
-                  "schedules incl. the ABA shape and recovery of a dead owner. " + _SCHED + ".",
-    "level_note": "capacity <= 2 (4 thorough), 1 preempted operation with up to 2 complete operations of the other "
-                  "thread; SC only; wrap of the 16-bit ABA tag and 3 threads outside the claim",
+                  "schedules incl. the ABA shape and the lock-if-last hand-shake. " + _SCHED + ". Thorough tier adds the "
+                  "recovery of a dead owner preempted at every atomic operation while a second recoverer / a live owner "
+                  "run in the gaps (25 min per harness).",
+    "level_note": "capacity <= 2 (thorough: capacity 1 race as well), 1 preempted operation with up to 2 complete "
+                  "operations of the other thread; SC only; wrap of the 16-bit ABA tag and 3 threads outside the claim",
 })
 PROPS["C11"].update({
     "level_text": _BMC + ". Channel-state protocol of zero_copy_connection (the mechanism that routes responses to "
@@ -855,6 +857,9 @@ PROPS["C03"]["extra"] = [_engine_m("c08_completion")]
 # if they are listed here (observed: passed on the unchanged tree within their caps, see DESIGN.md section 12.8);
 # all others are kept as tier "extended" (bin/check <ID> --tier extended), which no registered command runs.
 THOROUGH_OBSERVED = set("""
+c09_s_robust_recover_vs_recover c09_s_robust_recover_vs_owner c09_s_uis_race_cap1
+c13_q_race_detach_before_registration c13_forced_removal
+c05_ev_history c05_bitset_history_deep
 """.split())
 for _p in PROPS:
     for _h in PROPS[_p]["harnesses"]:
